@@ -2,7 +2,7 @@
    conditions hold of the code's own struct types, and the hypotheses are satisfiable by non-trivial values. *)
 From Coq Require Import List NArith ZArith Lia Bool Arith.
 From TarsV Require Import Gen.Consts Base.Hex Codec.Wire Codec.Skip Codec.Prim Codec.GenCodec Codec.Corr
-  Codec.RoundTrip Codec.RoundTripProofs Codec.TotalProofs Codec.PrefixProofs Codec.NormProofs Gen.Schemas.
+  Codec.RoundTrip Codec.RoundTripProofs Codec.TotalProofs Codec.PrefixProofs Codec.PrefixGenProofs Codec.NormProofs Gen.Schemas.
 Import ListNotations.
 Open Scope N_scope.
 
@@ -164,3 +164,20 @@ Example norm_not_identity :
   let e := [[ {| ftag := 1; freq := false; fty := TF32; fdef := None |} ]] in
   decode e 0 (encode e 0 (VStruct [VFlt 2147483648])) = DOk (VStruct [VFlt 0]) [].
 Proof. vm_compute. reflexivity. Qed.
+
+(* C06 on the code's schemas, every generated struct type with a finite type graph (containers and nested structs
+   included): the general prefix theorem *)
+Theorem env0_prefix_general : forall sid vs p q, tfin 8 env0 (TStruct sid) = true ->
+  has_type env0 (TStruct sid) (VStruct vs) -> encode env0 sid (VStruct vs) = p ++ q ->
+  bad (decode env0 sid p) \/
+  exists i h ps, (i <= length (fields_of env0 sid))%nat /\
+    p = enc_fields env0 (firstn i vs) (firstn i (fields_of env0 sid)) ++ h /\ (h = [] \/ halfhead h) /\
+    optional (skipn i (fields_of env0 sid)) /\
+    Forall2 (fun fd pr => prior_ok env0 (fty fd) (fdef fd) pr) (fields_of env0 sid) ps /\
+    decode env0 sid p = DOk (VStruct (firstn i (norm_fields env0 vs (fields_of env0 sid)) ++ skipn i ps)) [].
+Proof.
+  intros sid vs p q Hfin Hty HE. apply (prefix_general env0 2 8 sid vs p q); try assumption.
+  - apply env0_wf_schema.
+  - lia.
+  - now apply env0_static.
+Qed.
